@@ -34,7 +34,7 @@ COMPONENTS_STUB = ["file object: io.BytesIO", "step clock: sys.monitoring PY_STA
 ASSUMPTIONS = [
     "documented exception family = subclasses of pdfminer.psexceptions.PSException (AssertionError is a violation)",
     "single faults only",
-    "work bound: steps <= STEP_K * (len + STEP_C) monitored events (constant set at 20x the largest ratio seen on the baseline enumeration)",
+    "work bound: steps <= STEP_K * (len + STEP_C) monitored events (constant set at 20x the largest ratio seen on the baseline enumeration (29))",
 ]
 PROBES = ["outcome:returned", "outcome:PSException", "truncation", "replace", "remove", "ref-loop", "payload"]
 TIERS = {
@@ -43,7 +43,7 @@ TIERS = {
 }
 EXHAUSTIVE = {"thorough": True}
 DETERMINISM_SLICE = 0
-STEP_K = 40
+STEP_K = 200
 STEP_C = 5000
 _ready = False
 SEEDS = None
@@ -69,6 +69,20 @@ def setup():
 
 # -------------------------------------------------------------------------------- fault enumeration
 TYPES = ["int", "real", "string", "name", "array", "dict", "null", "bool"]
+# beyond the statement's "value of another type": unusual values, also of the same type (extra coverage)
+VARIANTS = {
+    "int:0": 0,
+    "int:-1": -1,
+    "int:5000": 5000,
+    "real:-0.5": Real("-0.5"),
+    "name:u110000": Name(b"u110000"),
+    "name:empty": Name(b""),
+    "string:empty": Str(b""),
+    "string:nul": Str(b"\x00\xff"),
+    "array:empty": [],
+    "dict:empty": {},
+    "array:nested": [[[]]],
+}
 SAMPLE = {"int": 7, "real": Real("2.5"), "string": Str(b"x"), "name": Name(b"Xq"), "array": [1, Name(b"A")], "dict": {b"K": 1}, "null": None, "bool": True}
 
 
@@ -116,6 +130,8 @@ def structural_faults(seed):
             for u in TYPES:
                 if u != ty:
                     yield ["replace", oid, path, u]
+            for vname in VARIANTS:
+                yield ["variant", oid, path, vname]
             if ckind == "dict":
                 yield ["remove", oid, path]
             if ty == "ref":
@@ -148,11 +164,43 @@ def payload_faults(seed):
             yield ["cut", oid, p]
         for how in ("+1", "-1", "0", "huge"):
             yield ["length", oid, how]
+    # inline image dictionaries live inside content streams: every value replaced by a value of each other type
+    for oid in sorted(seed.objects):
+        v = seed.objects[oid]
+        if isinstance(v, Stream) and b"Filter" not in v.dict and b" ID " in v.raw and b"BI " in v.raw:
+            head = v.raw[v.raw.index(b"BI ") + 3 : v.raw.index(b" ID ")]
+            toks = inline_tokens(head)
+            for i in range(1, len(toks), 2):
+                for u in ("int", "real", "string", "name", "array", "dict", "null", "bool", "array:empty", "remove"):
+                    yield ["inline", oid, i, u]
+    # a trailer whose /Prev points at its own cross-reference section
+    if seed.form == "table" and seed.encrypt is None:
+        yield ["prevloop", 0]
+    # cross-reference entries that place the object stream inside the xref stream object and vice versa
+    if seed.form == "stream" and not seed.flate_containers and len(seed.container_streams()) == 2:
+        yield ["xrefcycle", 0]
     # streams the writer itself added (object streams, cross-reference streams): flipped payload bytes
     for num, pos, n in seed.container_streams():
         for p in sorted(set(int(i * (n - 1) / 47) for i in range(48))) if n > 1 else []:
             yield ["cflip", num, p, 0xFF]
             yield ["cflip", num, p, 0x01]
+
+
+INLINE_SAMPLE = {"int": b"7", "real": b"2.5", "string": b"(x)", "name": b"/Xq", "array": b"[1 /A]", "dict": b"<</K 1>>", "null": b"null", "bool": b"true", "array:empty": b"[]"}
+
+
+def inline_tokens(head):
+    """Split the dictionary part of an inline image (between BI and ID) into top-level key / value tokens."""
+    toks, depth, cur = [], 0, b""
+    for part in head.split(b" "):
+        if not part:
+            continue
+        cur = cur + b" " + part if cur else part
+        depth += part.count(b"[") + part.count(b"<<") - part.count(b"]") - part.count(b">>")
+        if depth == 0:
+            toks.append(cur)
+            cur = b""
+    return toks
 
 
 def set_path(root, path, fn):
@@ -169,6 +217,37 @@ def apply_fault(seed, f):
     kind = f[0]
     if kind == "truncate":
         return BASE[seed.name][: f[1]]
+    if kind == "prevloop":
+        data = seed.writer().getvalue()
+        off = int(data[data.rindex(b"startxref") + 9 :].split()[0])
+        te = dict(seed.trailer_extra or {})
+        te[b"Prev"] = off  # the section is written at the same offset: /Prev is part of the trailer after it
+        from sim.docs import build_pdf
+
+        return build_pdf(seed.objects, seed.root, info=seed.info, form=seed.form, trailer_extra=te).getvalue()
+    if kind == "inline":
+        objs = dict(seed.objects)
+        st = copy.deepcopy(objs[f[1]])
+        a, z = st.raw.index(b"BI ") + 3, st.raw.index(b" ID ")
+        toks = inline_tokens(st.raw[a:z])
+        if f[3] == "remove":
+            del toks[f[2] - 1 : f[2] + 1]
+        else:
+            toks[f[2]] = INLINE_SAMPLE[f[3]]
+        st.raw = st.raw[:a] + b" ".join(toks) + st.raw[z:]
+        st.dict[b"Length"] = len(st.raw)
+        objs[f[1]] = st
+        return seed.build(objs)
+    if kind == "xrefcycle":
+        # entries are 1+3+2 bytes wide and the /Index is one contiguous run starting at 0 (checked below)
+        b = bytearray(BASE[seed.name])
+        (a_num, a_pos, a_len), (x_num, x_pos, x_len) = sorted(seed.container_streams())
+        nent = x_len // 6
+        if nent != x_num + 1:
+            raise core.HarnessError("xrefcycle: unexpected cross-reference stream layout in %s" % seed.name)
+        b[x_pos + 6 * a_num : x_pos + 6 * a_num + 6] = bytes((2,)) + x_num.to_bytes(3, "big") + (0).to_bytes(2, "big")
+        b[x_pos + 6 * x_num : x_pos + 6 * x_num + 6] = bytes((2,)) + a_num.to_bytes(3, "big") + (0).to_bytes(2, "big")
+        return bytes(b)
     if kind == "cflip":
         b = bytearray(BASE[seed.name])
         pos = [p for (n, p, ln) in seed.container_streams() if n == f[1]][0]
@@ -178,11 +257,13 @@ def apply_fault(seed, f):
     oid = f[1]
     obj = copy.deepcopy(objs[oid])
     objs[oid] = obj
-    if kind in ("replace", "remove", "ref"):
+    if kind in ("replace", "variant", "remove", "ref"):
         root = obj.dict if isinstance(obj, Stream) else obj
         path = f[2]
         if kind == "replace":
             set_path(root, path, lambda c, k: c.__setitem__(k, copy.deepcopy(SAMPLE[f[3]])))
+        elif kind == "variant":
+            set_path(root, path, lambda c, k: c.__setitem__(k, copy.deepcopy(VARIANTS[f[3]])))
         elif kind == "remove":
             set_path(root, path, lambda c, k: c.__delitem__(k))
         else:
@@ -260,6 +341,12 @@ def role_of(seed, f):
     if kind == "truncate":
         return "file"
     r = seed.roles.get(f[1], "obj%d" % f[1])
+    if kind == "xrefcycle":
+        return "Container.<xref entries>"
+    if kind == "prevloop":
+        return "Trailer.Prev"
+    if kind == "inline":
+        return "InlineImage.<dict>"
     if kind == "cflip":
         return "Container.<payload>"
     if kind in ("flip", "cut", "length"):
@@ -280,10 +367,18 @@ def role_of(seed, f):
 def kind_of(f):
     if f[0] == "replace":
         return "replace:" + f[3]
+    if f[0] == "variant":
+        return "variant:" + f[3]
     if f[0] == "ref":
         return "ref:" + f[3]
     if f[0] == "length":
         return "length:" + f[2]
+    if f[0] == "xrefcycle":
+        return "xref-entries-cycle"
+    if f[0] == "prevloop":
+        return "prev-points-at-itself"
+    if f[0] == "inline":
+        return "inline:%s" % f[3]
     return f[0]
 
 
@@ -335,8 +430,8 @@ def run(tape, ctx, item=None):
     budget = STEP_K * (len(data) + STEP_C)
     devs = []
     fk, role = kind_of(f), role_of(seed, f)
-    ctx.fault(f[0] if f[0] not in ("replace", "ref") else fk)
-    ctx.probe({"truncate": "truncation", "replace": "replace", "remove": "remove", "ref": "ref-loop" if f[0] == "ref" and f[3][:3] in ("loo", "rho") else "replace", "flip": "payload", "cut": "payload", "length": "payload", "cflip": "payload"}[f[0]])
+    ctx.fault(f[0] if f[0] not in ("replace", "ref", "variant") else fk)
+    ctx.probe({"truncate": "truncation", "replace": "replace", "variant": "replace", "xrefcycle": "ref-loop", "prevloop": "ref-loop", "inline": "replace", "remove": "remove", "ref": "ref-loop" if f[0] == "ref" and f[3][:3] in ("loo", "rho") else "replace", "flip": "payload", "cut": "payload", "length": "payload", "cflip": "payload"}[f[0]])
     outcomes = []
     for name, fn in entry_points(data):
         seams.CLOCK.start(budget)
